@@ -387,3 +387,54 @@ func dependsOnFieldThroughMem(v ssa.Value, field string) bool {
 	}
 	return f(v)
 }
+
+// ruleFailFast (R12d): inside the depth loop of DepthExecutorManager.Execute, the failure side
+// of DepthExecutor.Execute and of merge leaves the loop; it never reaches the back edge (a
+// later iteration would run the same requests again).
+func ruleFailFast(r *Run) {
+	const rule = "R12d"
+	mgr := r.Anchor(rule, "executor.(*DepthExecutorManager).Execute")
+	if mgr == nil {
+		return
+	}
+	n := 0
+	for _, ins := range allInstrs(mgr) {
+		c, ok := ins.(*ssa.Call)
+		if !ok {
+			continue
+		}
+		loop := innermostLoop(c.Block())
+		if loop == nil {
+			continue
+		}
+		var errv ssa.Value
+		if isErrorish(c.Type()) {
+			errv = c
+		} else if c.Referrers() != nil {
+			for _, ref := range *c.Referrers() {
+				if ex, ok := ref.(*ssa.Extract); ok && isErrorish(ex.Type()) {
+					errv = ex
+				}
+			}
+		}
+		if errv == nil {
+			continue
+		}
+		for _, t := range failureTests(errv) {
+			n++
+			// can the failure side reach the loop header again?
+			var header *ssa.BasicBlock
+			for b := range loop {
+				for _, p := range b.Preds {
+					if !loop[p] {
+						header = b
+					}
+				}
+			}
+			back := header != nil && (t.fail == header || blockReach(t.fail)[header])
+			r.Check(!back, rule, fnName(mgr), "failure of "+calleeDesc(&c.Call)+" ends the depth loop", r.P.pos(c.Pos()),
+				"the failure branch returns; no further depth is executed", "after a failing depth the loop goes on: the next iteration executes the pending requests again (root mutations are sent once more per remaining depth)")
+		}
+	}
+	r.AtLeast(rule, "error tests inside the depth loop", n, 2)
+}
